@@ -488,7 +488,7 @@ func (r *RateDef) Value(date cal.Date, tags []cbc.Key, ext Extensions) *RateValu
 				continue
 			}
 		}
-		if rv.Since == nil || !rv.Since.IsValid() || rv.Since.Before(date.Date) {
+		if rv.Since == nil || !rv.Since.IsValid() || !rv.Since.After(date.Date) {
 			return rv
 		}
 	}
